@@ -334,9 +334,20 @@ impl Search<'_> {
         if all_must && pending.is_empty() {
             self.finals.push(m.clone());
         }
-        // commit a started DELETE
+        // commit a started DELETE / INSERT .. SELECT
         for (&i, rows) in pending {
             let st = &self.stmts[i];
+            if let Stmt::InsertSelect { table, .. } = &st.stmt {
+                let mut n = m.clone();
+                if let Some((_, data)) = n.tables.get_mut(table) {
+                    data.extend(rows.iter().cloned());
+                } else {
+                    continue; // table vanished: the insert could not have been acknowledged
+                }
+                let mut pn = pending.clone();
+                pn.remove(&i);
+                self.dfs(done | (1 << i), skipped, &pn, &n);
+            }
             if let Stmt::Delete { table, .. } = &st.stmt {
                 let mut n = m.clone();
                 if let Some((_, data)) = n.tables.get_mut(table) {
@@ -399,6 +410,20 @@ impl Search<'_> {
                 _ => None,
             };
             if self.si {
+                if let Stmt::InsertSelect { table, from, pred } = &st.stmt {
+                    // snapshot point: the source rows are read now, appended at the commit point
+                    if let (Some(_), Some((fdef, fdata))) = (m.tables.get(table), m.tables.get(from)) {
+                        let rows: Vec<Row> =
+                            fdata.iter().filter(|r| pred.holds(fdef, r)).cloned().collect();
+                        let mut pn = pending.clone();
+                        pn.insert(i, rows);
+                        self.dfs(done, sk, &pn, m);
+                    }
+                    if self.may.contains(&i) {
+                        self.dfs(done, skipped | (1 << i), pending, m);
+                    }
+                    continue;
+                }
                 if let Stmt::Delete { table, pred } = &st.stmt {
                     // snapshot point: capture the rows the predicate selects now
                     if let Some((def, data)) = m.tables.get(table) {
